@@ -46,6 +46,8 @@ class FullWorld(object):
         self.sim.time_jump_p = plan.get('time_jump_p', 0.0)
         if plan.get('stall'):
             self.sim.line_stall = tuple(plan['stall'])
+        if plan.get('focus_stall'):
+            self.sim.focus_stall = tuple(plan['focus_stall'])
         nk = dict(net or {})
         nk.setdefault('chunk_mode', plan.get('chunk_mode', 'whole'))
         self.net = SimNet(self.sim, **nk)
